@@ -45,6 +45,10 @@ var nastyStrings = []string{
 }
 
 func genNasty(rng *rand.Rand) string {
+	return dictMutate(rng, genNasty0(rng), " .:%[]/#\t", 10)
+}
+
+func genNasty0(rng *rand.Rand) string {
 	k := rng.IntN(7)
 	if k == 6 {
 		k = 2
